@@ -51,7 +51,7 @@ def probe_runs(c, base_steps, final, prefix, counter):
 
 class Plan:
     def __init__(self, name, c, spec="Spec", edges=True, nwalks=0, depth=20, stores=("inmem",), embeds=("id",), http=False,
-                 keyof=None, probes=False, want=None, extra_runs=None, max_edges=None, reads=False):
+                 keyof=None, probes=False, want=None, extra_runs=None, max_edges=None, reads=False, edge_cap=None):
         self.__dict__.update(locals())
 
 
@@ -112,7 +112,7 @@ def make_check(prop, plans_of, rule, nontrivial, level="model_checking", assumpt
             pre(work, rep, tier)
         for pl in plans_of(tier):
             c = pl.c
-            r, edges = model_check(work, rep, pl.name, c, spec=pl.spec)
+            r, edges = model_check(work, rep, pl.name, c, spec=pl.spec, edge_cap=pl.edge_cap, rng=rng)
             g = Graph(edges)
             init = {l: {"none": True} for l in sorted(c["Logs"])}
             runs = []
@@ -402,9 +402,10 @@ def c08_plans(tier):
         c = consts(MaxSize=3, NBranch=2, ForkAt=Sub("Fork_2"), Olds={0, 1, 2, 3, 4}, Extras={0, 1, 3, 4, 5, 6}, Exts={0, 1}, BadKinds={"random", "flip"}, BadAuths={"badsig"})
         return [Plan("MC_Witness(all states)", c, edges=False, probes=True, nwalks=150, depth=30, stores=("inmem", "sqlmem"), embeds=("id", "pow2")),
                 Plan("MC_Witness(all states of the unguarded design)", dict(c, PadGuard=False, MaxSize=2, Olds={0, 1, 2, 3}), edges=False, probes=True, nwalks=20, depth=10, stores=("inmem",), embeds=("id",))]
-    c = consts(MaxSize=4, NBranch=3, ForkAt=Sub("Fork_2_0"), Olds={0, 1, 2, 3, 4, 5}, Extras={0, 1, 3, 4, 5, 6}, Stales={0, 1}, Exts={0, 1}, BadKinds={"random", "flip"}, BadAuths={"badsig"})
-    return [Plan("MC_Witness(all states)", c, edges=False, probes=True, nwalks=1500, depth=40, stores=T_ST, embeds=T_EMB),
-            Plan("MC_Witness(all states of the unguarded design)", dict(c, PadGuard=False), edges=False, probes=True, nwalks=100, depth=20, stores=("inmem", "sqlfile"), embeds=("id", "huge"))]
+    c = consts(MaxSize=4, NBranch=3, ForkAt=Sub("Fork_2_0"), Olds={0, 1, 2, 3, 4, 5}, Extras={0, 1, 3, 4, 5, 6}, Stales={0, 1}, Exts={0, 1}, BadKinds={"random"}, BadAuths={"badsig"})
+    return [Plan("MC_Witness(all states)", c, edges=False, probes=True, nwalks=1500, depth=40, stores=T_ST, embeds=T_EMB, edge_cap=400),
+            Plan("MC_Witness(all states of the unguarded design)", dict(c, PadGuard=False, Stales={0}), edges=False, probes=True, nwalks=100, depth=20, stores=("inmem", "sqlfile"),
+                 embeds=("id", "huge"), edge_cap=400)]
 
 
 CHECKS["C08"] = make_check("C08", c08_plans,
